@@ -223,9 +223,12 @@ def graph_job(prop, tier, seed, job, policy, known, acc):
         raise ToolError('%d edges unreachable in %s' % (unreach, spec))
     # history diversity: single-guard refusals re-tried right after every moving edge (hidden residue)
     rv = job.get('revisit', {})
-    rv_walks = g.revisit_walks(budget=rv.get('quick_budget', 4000) if tier == 'quick' else rv.get('thorough_budget', 200000),
+    rv_walks = g.revisit_walks(budget=rv.get('quick_budget', 4000) if tier == 'quick' else rv.get('thorough_budget', 30000 if module in ('ITS', 'System') else 200000),
                                seed=seed) if rv is not False else []
     n_cover = len(walks)
+    n_arrival = 0
+    if rv is not False:
+        walks, n_arrival = g.add_arrival_probes(walks, budget=rv.get('quick_arrival_budget', 3000) if tier == 'quick' else rv.get('thorough_arrival_budget', 30000 if module in ('ITS', 'System') else 200000), seed=seed)
     walks = walks + rv_walks
     ctl = job.get('control')
     wpath = os.path.join(outdir, 'walks.ndjson')
@@ -286,7 +289,7 @@ def graph_job(prop, tier, seed, job, policy, known, acc):
     distinct_nontrivial = len({G.canon([e['act'], e['_pre']]) for i, e in enumerate(edges) if select is None or i in select})
     acc['jobs'].append({'spec': spec, 'cfg': cfgname, 'design_run': design, 'module': module, 'states': stats['distinct'], 'transitions': len(edges),
                         'tlc_generated': stats['generated'], 'depth': stats['depth'], 'tlc_s': stats['tlc_s'],
-                        'edges_replayed': len(edges) if select is None else len(select), 'walks': len(walks), 'revisit_walks': len(rv_walks),
+                        'edges_replayed': len(edges) if select is None else len(select), 'walks': len(walks), 'revisit_walks': len(rv_walks), 'arrival_probes': n_arrival,
                         'steps_executed': nsteps, 'replay_s': round(rsecs, 1), 'exhaustive_replay': exhaustive,
                         'edges_by_action_outcome': byact, 'distinct_nontrivial': distinct_nontrivial})
     if not acc.get('sample'):
@@ -340,8 +343,15 @@ def trace_job(prop, tier, seed, job, policy, known, acc):
     res, done, err, tail = parse_trace_out(out)
     if rc == 124:
         raise ToolError('TLC timed out validating the trace')
+    unconsumed = None
     if done is None or done[1] != nlines:
-        raise ToolError('trace not consumed (%s of %d lines): %s\n%s' % (done, nlines, err, '\n'.join(tail)))
+        unconsumed = 'trace not consumed (%s of %d lines): %s\n%s' % (done, nlines, err, '\n'.join(tail))
+        # An implementation that has left the state space of the specification (a hole in a lookup, an amount off
+        # the lattice) can make the evaluation of a LATER line fail.  The mismatches reported before that point
+        # stand; only if none of them is a violation of this property is the unconsumed trace a tool error.
+        if err is None or 'log not continuous' in err or not res:
+            raise ToolError(unconsumed)
+    nviol0 = len(acc['violations'])
     for dv in set(parse_trace_out.devs):
         for k in known:
             if k.get('status') == 'known' and k.get('property') == prop and k.get('deviation') == dv:
@@ -383,6 +393,8 @@ def trace_job(prop, tier, seed, job, policy, known, acc):
             acc['drift'].append({'spec': job['spec'], 'act': r.get('act'), 'reason': reason})
         else:
             acc['foreign'].append({'spec': job['spec'], 'kind': div['kind'], 'act': r.get('act', {}).get('name'), 'reason': reason})
+    if unconsumed and len(acc['violations']) == nviol0:
+        raise ToolError(unconsumed)
     # what the trace looked like
     names = {}
     sample = []
